@@ -17,6 +17,9 @@ mod c32;
 mod c25;
 mod lexp;
 mod lexgen;
+mod objx;
+mod asmgen;
+mod asmprops;
 mod proggen;
 mod parseprops;
 
@@ -37,7 +40,7 @@ fn main() {
             _ => { i += 1; }
         }
     }
-    util::silence_panics();
+    if std::env::var("LC3V_PANICS").is_err() { util::silence_panics(); }
     let mut ex = exec::Exec::default();
     if sub == "exec" {
         let stdin = std::io::stdin();
@@ -97,6 +100,12 @@ fn main() {
         "c04" => parseprops::c04(&mut o, &mut ex, seed, thorough),
         "c05" => parseprops::c05(&mut o, &mut ex, seed, thorough),
         "c36" => parseprops::c36(&mut o, &mut ex, seed, thorough),
+        "c01" => asmprops::c01(&mut o, &mut ex, seed, thorough),
+        "c02" => asmprops::c02(&mut o, &mut ex, seed, thorough, false),
+        "c26" => asmprops::c02(&mut o, &mut ex, seed, thorough, true),
+        "c23" => asmprops::c23(&mut o, &mut ex, seed, thorough),
+        "c24" => asmprops::c24(&mut o, &mut ex, seed, thorough),
+        "c21" => asmprops::c21(&mut o, &mut ex, seed, thorough),
         "c25" => c25::gen(&mut o, &mut ex, seed, thorough),
         "c34" => c34::gen(&mut o, &mut ex, seed, thorough),
         "c32" => c32::gen(&mut o, &mut ex, seed, thorough),
